@@ -8,7 +8,7 @@
    [cat_cands o rules] = the rules with a category whose condition is true, in file order;
    [sub_cands]/[mer_cands] = the matching rules that set a subcategory / a merchant. *)
 From Coq Require Import String Ascii List Bool ZArith Arith Permutation.
-From Tally Require Import Lib.Str Engine.StrLib Gen.C09Specificity Engine.Model Engine.Lemmas C09.Proofs.
+From Tally Require Import Lib.Str Engine.StrLib Gen.C09Specificity Engine.Model Engine.Lemmas Engine.Loader C09.Proofs.
 Import ListNotations.
 Open Scope string_scope.
 
@@ -72,6 +72,38 @@ Theorem c09_constraint_kinds_partial :
             Z.of_nat (length (filter (fun kw => contains (lower (r_match r)) kw) constraint_keywords)).
 Proof. exact constraint_kinds_partial. Qed.
 Print Assumptions c09_constraint_kinds_partial.
+
+(* The ranking is that of the file AS WRITTEN (Engine/Loader.v models the loader's treatment of `priority:` and of the
+   merchant default): no priority line = 50; an explicit priority is the integer its text denotes — 0 stays 0, negative
+   values stay negative; a text int() rejects is a parse error (load_blocks = None). *)
+Theorem c09_priority_as_written :
+  load_priority PAbsent = Some 50%Z /\
+  load_priority (PText "0") = Some 0%Z /\
+  (forall (neg : bool) ds, Forall (fun d => (d < 10)%nat) ds -> ds <> [] ->
+     load_priority (PText ((if neg then "-" else "") ++ digits_string ds)) =
+     Some (if neg then (- digits_value ds)%Z else digits_value ds)).
+Proof. exact priority_as_written. Qed.
+Print Assumptions c09_priority_as_written.
+
+(* every loaded rule ranks by (priority as written, pattern conditions, constraint keywords, pattern length of ITS OWN text),
+   and carries the category / subcategory / merchant of its block (merchant defaults to the rule name); together with
+   c09_category_is_first_lex_max etc. this states the ranking theorems over the file text *)
+Theorem c09_ranking_over_written_file :
+  forall blocks rules,
+    load_blocks 0 blocks = Some rules ->
+    length rules = length blocks /\
+    forall k b, nth_error blocks k = Some b ->
+      exists r p, nth_error rules k = Some r /\ load_priority (f_priority b) = Some p /\
+                  spec_of r = (p, pattern_count (f_match b), constraint_kinds (f_match b), pattern_length (f_match b)) /\
+                  r_category r = f_category b /\ r_subcategory r = f_subcategory b /\
+                  r_merchant r = (if is_empty (f_merchant b) then f_name b else f_merchant b).
+Proof. exact loaded_spec. Qed.
+Print Assumptions c09_ranking_over_written_file.
+
+Theorem c09_loaded_rule_has_merchant :
+  forall id b r, load_block id b = Some r -> is_empty (f_name b) = false -> has_merchant r = true.
+Proof. exact loaded_has_merchant. Qed.
+Print Assumptions c09_loaded_rule_has_merchant.
 
 (* exact ties go to the earlier rule *)
 Theorem c09_ties_to_earlier :
@@ -175,5 +207,21 @@ Example c09_example_substring_counting :
         engine_match MostSpecific [xr 0 "contains(""UBER"") and amount > 5" "CatA" "" 50; xr 1 "contains(""UBER"") and weekday >= 0" "CatB" "" 50] all_true with
   | Res a, Res b => category a = "Travel" /\ category b = "CatB"
   | _, _ => False
+  end.
+Proof. vm_compute. repeat split; reflexivity. Qed.
+
+(* the loader on boundary priorities: absent, 0, negative, signed, leading zeros, underscore; rejected texts *)
+Definition fb name m cat p : fblock :=
+  {| f_name := name; f_match := m; f_category := cat; f_subcategory := ""; f_merchant := ""; f_tags := ["t"]; f_priority := p; f_fields := [] |}.
+Example c09_example_loader :
+  map load_priority [PAbsent; PText "0"; PText "-10"; PText "+5"; PText "007"; PText "1_000"; PText "-0"] =
+    [Some 50; Some 0; Some (-10); Some 5; Some 7; Some 1000; Some 0]%Z /\
+  map load_priority [PText ""; PText "1__0"; PText "_1"; PText "1_"; PText "0x10"; PText "5.0"; PText "--1"; PText "-"] =
+    [None; None; None; None; None; None; None; None] /\
+  match load_blocks 0 [fb "Zero" "contains(""UBER"") and contains(""EATS"") and amount > 0" "Food" (PText "0");
+                       fb "Other" "contains(""UBER"")" "Transport" PAbsent; fb "Neg" "contains(""UBER"")" "" (PText "-3")] with
+  | Some rules => map spec_of rules = [(0, 2, 1, 8); (50, 1, 0, 4); (-3, 1, 0, 4)]%Z /\ map r_merchant rules = ["Zero"; "Other"; "Neg"] /\
+                  match engine_match MostSpecific rules all_true with Res r => (category r, merchant r) = ("Transport", "Other") | Crash => False end
+  | None => False
   end.
 Proof. vm_compute. repeat split; reflexivity. Qed.
